@@ -37,7 +37,10 @@ pub fn unhex(s: &str) -> Option<Vec<u8>> {
 
 /// Run `f`, turning a panic into `Err(message)`.
 pub fn guarded<T>(f: impl FnOnce() -> T) -> Result<T, String> {
-    match catch_unwind(AssertUnwindSafe(f)) {
+    IN_GUARD.with(|g| g.set(g.get() + 1));
+    let r = catch_unwind(AssertUnwindSafe(f));
+    IN_GUARD.with(|g| g.set(g.get() - 1));
+    match r {
         Ok(v) => Ok(v),
         Err(e) => {
             let msg = if let Some(s) = e.downcast_ref::<&str>() {
@@ -54,6 +57,7 @@ pub fn guarded<T>(f: impl FnOnce() -> T) -> Result<T, String> {
 }
 
 thread_local! {
+    static IN_GUARD: std::cell::Cell<u32> = const { std::cell::Cell::new(0) };
     pub static LAST_PANIC_LOC: std::cell::RefCell<String> = std::cell::RefCell::new(String::new());
 }
 
@@ -63,6 +67,21 @@ pub fn install_quiet_panic_hook() {
             .location()
             .map(|l| format!("{}:{}", l.file(), l.line()))
             .unwrap_or_default();
+        // a panic outside a guarded call is a bug of the harness itself: say where
+        if IN_GUARD.with(|g| g.get()) == 0 {
+            eprintln!("harness panic (not inside a guarded call) at {}: {}", loc, info);
+        }
         LAST_PANIC_LOC.with(|l| *l.borrow_mut() = loc);
     }));
+}
+
+/// first `head` and last `tail` characters of a long string (never cuts inside a character)
+pub fn shorten(s: &str, head: usize, tail: usize) -> String {
+    let n = s.chars().count();
+    if n <= head + tail + 1 {
+        return s.to_string();
+    }
+    let h: String = s.chars().take(head).collect();
+    let t: String = s.chars().skip(n - tail).collect();
+    format!("{}…{}", h, t)
 }
